@@ -25,6 +25,23 @@ SimNext == \/ /\ Len(hist) < GenDepth
            \/ /\ Len(hist) = GenDepth /\ ~done /\ done' = TRUE /\ UNCHANGED <<st, last, hist>>
 SimSpec == GenInit /\ [][SimNext]_<<st, last, hist, done>>
 
+(* Tour (DESIGN.md 5.1, "transition tour"): the view keeps the module's own state only, so TLC's  *)
+(* breadth-first search expands every state of the COMPLETE pause-state graph exactly once,        *)
+(* carrying the shortest history by which it was first reached.                                     *)
+(*   TourMode = "edges":  one history per TRANSITION of the graph (shortest path + the input);      *)
+(*   TourMode = "states": one history per STATE (shortest path + every probe transfer in a row:     *)
+(*                        probes do not move the pause state, so all are judged in that state).     *)
+(* The printing conjuncts are evaluated by TLC once per expanded state / per generated successor.   *)
+CONSTANT TourMode
+ProbeSeq == SetToSeq(Probes \cup EmptyFeeProbes \cup PtProbes \cup NoCtlProbes)
+TourNext == /\ (TourMode = "states" => PrintT(<<"BEHAVIOUR", ToJson(hist \o ProbeSeq)>>))
+            /\ \E in \in GenAlphabet :
+                 /\ st' = Apply(st, in).st /\ hist' = Append(hist, in)
+                 /\ (TourMode = "edges" => PrintT(<<"BEHAVIOUR", ToJson(hist')>>))
+            /\ UNCHANGED <<last, done>>
+TourSpec == GenInit /\ [][TourNext]_<<st, last, hist, done>>
+TourView == <<st.pProto, st.pCC, st.pAct, st.maxPT, st.hasParams>>
+
 Emit == done => PrintT(<<"BEHAVIOUR", ToJson(hist)>>)
 =============================================================================
 
